@@ -801,3 +801,15 @@ Proof.
   destruct (skip_to (fun c => c =? c_at) (p_sc s)) as [[[v0 c] c']|]; [|reflexivity].
   unfold parse_command, set_cstart, set_sc, set_value, set_fname, set_fields, set_key. cbn. reflexivity.
 Qed.
+
+(* ---- the premise names_total is C04's theorem pair *)
+From Pybtex Require Proofs.Names.
+Lemma names_total_holds : names_total.
+Proof. split; [exact Proofs.Names.person_of_string_total|exact Proofs.Names.split_name_list_total]. Qed.
+
+Lemma parse_bib_total_all m text : no_internal_failure (parse_bib m text).
+Proof. apply parse_bib_total. exact names_total_holds. Qed.
+Lemma parse_bib_located_all m text d s : parse_bib m text = Ret d s -> forall e, In e (p_errs s) -> located text e.
+Proof. apply parse_bib_located. exact names_total_holds. Qed.
+Lemma parse_bib_ns_all text : parse_bib NonStrict text = parse_bib Capture text.
+Proof. apply parse_bib_ns. exact names_total_holds. Qed.
